@@ -148,6 +148,7 @@ _SYNTAX_MECHS = [
     ("optional_const_missing_space", re.compile(r"!= \S+and not isinstance\(")),
     ("raw_name_fallback_not_identifier", re.compile(r"^(field_)?[\w]*[^\w\s:=,.()\[\]'\"]+[\w]*\s*[:=,]")),
     ("duplicate_argument", re.compile(r"duplicate argument")),
+    ("default_before_non_default", re.compile(r"parameter without a default follows parameter with a default|non-default argument follows default argument")),
     ("unterminated_string", re.compile(r"unterminated (triple-quoted )?string|EOL while scanning")),
 ]
 
@@ -173,6 +174,15 @@ def main_wrapper(fn):
         code = 2
     sys.stdout.flush()
     os._exit(code)
+
+
+# names the generated modules import for their own use: a document class of the same name replaces them in the importing module
+SHADOW_NAMES = {"Any", "Union", "Optional", "cast", "Literal", "TYPE_CHECKING", "TypeVar", "BinaryIO", "TextIO", "Generator", "Mapping", "MutableMapping", "HTTPStatus", "Client", "AuthenticatedClient", "Response",
+                "UNSET", "Unset", "File", "FileTypes", "BytesIO", "UUID", "Enum", "IntEnum", "StrEnum", "T", "isoparse", "datetime", "json", "httpx", "errors", "ssl"}
+
+
+def class_shadows_template_import(man: dict) -> bool:
+    return bool((set((man or {}).get("models") or {}) | set((man or {}).get("enums") or {})) & SHADOW_NAMES)
 
 
 def union_members_mentioning(src: str, cls: str) -> bool:
